@@ -317,7 +317,10 @@ def one_run(ctx, L, data, o, target_kind, policy, i, label, handler=False, chunk
     return res.rc, res.errors, problems
 
 
-NSYSTEMATIC = 4 * len(SNIPPETS)
+# CIF 1.1 quoted strings longer than the scan buffer in which every (second, seventh) character is the delimiter itself,
+# followed by a non-blank: the scanner looks one character ahead at each of them, also where the buffer has just run full
+LONG_QUOTED = [("'", 1), ('"', 1), ("'", 2), ("'", 7)]
+NSYSTEMATIC = 4 * len(SNIPPETS) + len(LONG_QUOTED)
 
 
 def run_case(ctx, L, i):
@@ -328,7 +331,16 @@ def run_case(ctx, L, i):
     # 'again': the target already holds what an earlier parse of the same bytes stored (every block a duplicate)
     target_kind = rng.choice(['new', 'new', 'new', 'none', 'none', 'existing', 'existing', 'again'])
     handler = rng.random() < 0.3
-    if i < NSYSTEMATIC:
+    if 4 * len(SNIPPETS) <= i < NSYSTEMATIC:
+        q, step = LONG_QUOTED[i - 4 * len(SNIPPETS)]
+        body = ''.join(q if k % step == 0 else 'x' for k in range(150000))
+        data = ('data_d\n_a %s%s%s\n_b 1\n' % (q, body, q)).encode('utf-8')
+        label, ops = 'long-quoted', []
+        o = option_vector(random.Random(0))
+        o.update(prefer_cif2=0, depth=1, fold=0, prefix=0, ws=None, eol=None, encoding=None, force=0)
+        target_kind = 'new'
+        handler = False
+    elif i < NSYSTEMATIC:
         # every recovery fragment on its own, in CIF 2.0 and without magic code, storing and syntax-only, default options
         sn = SNIPPETS[i // 4]
         data = (('#\\#CIF_2.0\n' if i % 2 else '') + 'data_s\n_ok 1\n' + sn + '\n_after 2\n').encode('utf-8', 'surrogatepass')
